@@ -36,24 +36,33 @@ from vlib import core as V
 from vlib import kernels as K
 
 ID = 'C13'
-LEVEL_TEXT = ("Theorems (Props/C13.v) about a hand model of Survey's noise settings with explicit array "
-              "references (two heaps, surveys hold indices; in-place updates and sharing are modelled): "
-              "for ALL operation histories over add_noise (any parameters, any noise realisation), "
-              "select, copy, to_dict/from_dict, save/load and setters on OTHER surveys, noise floor, "
-              "relative error and explicit standard deviation of every existing survey are unchanged "
-              "(induction over histories); std^2 = nf^2 + (re|d|)^2 for scalar and broadcast array "
-              "settings, explicit std wins, None when unset; misfit = 1/2 sum over finite data of "
-              "|syn-obs|^2/std^2, invariant under every permutation of sources, receivers, frequencies; "
-              "a selection holds exactly the chosen sub-cube of every array; amplitude/offset cuts set "
-              "exactly the specified entries to NaN. All shapes, all layouts, unbounded.")
+LEVEL_TEXT = ("Theorems (Props/C13.v, 38, all closed under the global context) about a hand model of Survey "
+              "with explicit array references (two heaps, surveys hold indices; sharing and in-place updates "
+              "are modelled). For ALL operation histories (add_noise with any parameters and any noise, "
+              "select, copy, to_dict/from_dict, save/load, setters on other surveys) noise floor, relative "
+              "error and explicit std of every existing survey are unchanged, and the reference / key "
+              "invariants hold in every reachable state. std^2 = nf^2 + (re|d|)^2 for scalar and broadcast "
+              "arrays, explicit std wins, None when unset; misfit = 1/2 sum over finite data of "
+              "|syn-obs|^2/std^2, invariant under every permutation of sources, receivers, frequencies. "
+              "select: the new survey is the restriction BY LABEL of the original (observed, every named "
+              "data set, noise-floor / relative-error arrays, explicit std agree on every (source, receiver, "
+              "frequency) name triple) to the requested names in the requested order, for every order; "
+              "repeated or unknown names are rejected and change nothing; remove_empty removes exactly the "
+              "names without a finite chosen datum; select o select = direct select. add_noise: complete "
+              "equation for every entry of the written array (cut -> NaN, no std -> unchanged, NaN std -> "
+              "NaN, else old + noise) and every other data array untouched. All shapes, layouts, unbounded.")
 LEVEL_NOTE = ("The model is hand-written; it is tied to the source by a differential correspondence on "
-              "generated histories (state compared after every operation, exact rational equality for "
-              "stored values, alias structure via np.shares_memory). RNG is an oracle (noise recovered from "
-              "the run); the square root is avoided (theorems on std^2; for every m with m^2=|d|^2). "
-              "IEEE rounding of std/misfit is not modelled (1e-9 relative in the correspondence). "
-              "Setter inputs are assumed to be fresh arrays; add_to is 'observed' or a user data set "
-              "(not '_noise_floor', '_relative_error', 'standard_deviation'). numpy broadcasting, xarray "
-              ".sel/.copy and h5py/npz/json storage are inside the correspondence, not verified.")
+              "generated histories (state compared after every operation, by label and positionally, exact "
+              "rational equality for stored values, alias structure via np.shares_memory) including an "
+              "exhaustive stream of ordered name sub-lists. RNG is an oracle (noise recovered from the run); "
+              "the square root is avoided (theorems on std^2; for every m with m^2=|d|^2). IEEE rounding of "
+              "std/misfit is not modelled (1e-9 relative in the correspondence). Setter inputs are assumed to "
+              "be fresh arrays; add_to is 'observed' or a user data set (not '_noise_floor', "
+              "'_relative_error', 'standard_deviation'); std = 0 (zero datum with relative error only) is "
+              "outside the domain. numpy broadcasting, xarray .sel/.copy and h5py/npz/json storage are "
+              "inside the correspondence, not verified. No theorem is partial any more; the composition "
+              "'misfit of a re-ordered survey = misfit of the original' is the conjunction of "
+              "select_subcube_by_label and misfit_axes_perm_invariant, not one statement.")
 TECHNIQUE = ("Coq proof (induction over operation histories, Permutation, ring/field) about a hand model "
              "+ differential correspondence (vm_compute on Q) against emg3d.Survey / Simulation.misfit")
 DESIGN_REF = "DESIGN.md section 6 C13"
@@ -562,6 +571,37 @@ def offsets2(case):
     return tab
 
 
+def gen_name_list(rng, pool, malformed):
+    """a list of names for one axis of select(): permuted / descending / ascending
+    sub-lists, pure re-orderings, and (also in the valid stream: the code must
+    reject them) repeated or unknown names."""
+    t = rng.random()
+    n = len(pool)
+    k = rng.randint(1, n)
+    if t < 0.08 or (malformed and t < 0.3):
+        l = list(pool)
+        rng.shuffle(l)
+        l = l[:k]
+        if rng.random() < 0.6:
+            l.insert(rng.randint(0, len(l)), l[rng.randrange(len(l))])
+            return l, 'repeated'
+        l.insert(rng.randint(0, len(l)), 99)
+        return l, 'unknown'
+    if t < 0.30:
+        return sorted(pool, reverse=True)[:k] if rng.random() < 0.5 else \
+            sorted(rng.sample(pool, k), reverse=True), 'descending'
+    if t < 0.45:
+        return sorted(rng.sample(pool, k)), 'ascending'
+    if t < 0.65:
+        l = list(pool)
+        rng.shuffle(l)
+        return l, ('reordered' if l != sorted(l) else 'ascending')
+    l = list(pool)
+    rng.shuffle(l)
+    l = l[:k]
+    return l, ('permuted' if l != sorted(l) else 'ascending')
+
+
 def gen_op(rng, impl, case, n_setters_first, malformed):
     """draw the next operation given the current implementation state"""
     nsv = len(impl.surveys)
@@ -628,21 +668,13 @@ def gen_op(rng, impl, case, n_setters_first, malformed):
                'receivers': [impl.key_id(k) for k in sv.receivers],
                'frequencies': [impl.key_id(k) for k in sv.frequencies]}
         allnone = rng.random() < 0.25
+        o['kinds'] = {}
         for ax in ('sources', 'receivers', 'frequencies'):
-            if allnone or rng.random() < 0.35:
+            if allnone or rng.random() < 0.3:
                 o[ax] = None
+                o['kinds'][ax] = 'none'
                 continue
-            pool = list(ids[ax])
-            rng.shuffle(pool)
-            k = rng.randint(1, len(pool))
-            if rng.random() < 0.35:
-                k = len(pool)           # a pure re-ordering of this axis
-            o[ax] = pool[:k]
-            if malformed and rng.random() < 0.25:
-                if rng.random() < 0.5:
-                    o[ax] = o[ax] + [99]
-                else:
-                    o[ax] = o[ax] + [o[ax][0]]
+            o[ax], o['kinds'][ax] = gen_name_list(rng, list(ids[ax]), malformed)
         return o
     return {'op': 'dict', 's': s, 'kind': rng.choice([0, 0, 1, 1, 2, 3, 4])}
 
@@ -713,6 +745,27 @@ def coq_history(tag, case, extras):
 ERR_OK = {1: {'ValueError'}, 2: {'KeyError', 'ValueError'}, 9: {'NoSurvey'}}
 
 
+def by_label(d):
+    """{array name: {(src, rec, freq) names: cell}} of a survey dump"""
+    out = {}
+    arrs = {'obs': d['obs'], 'std': d['std'], 'nf_arr': d['nf_arr'], 're_arr': d['re_arr']}
+    for n, c in d['named'].items():
+        arrs[f'named{n}'] = c
+    for name, c in arrs.items():
+        if c is None:
+            continue
+        m = {}
+        try:
+            for i, a in enumerate(d['src']):
+                for j, b in enumerate(d['rec']):
+                    for k, f in enumerate(d['frq']):
+                        m[(a, b, f)] = c[i][j][k]
+        except IndexError:
+            m = {'shape': 'array shape does not match the names'}
+        out[name] = m
+    return out
+
+
 def diff_state(impl_state, model_state):
     """first difference between the implementation dump and the model dump"""
     isv, ialias = impl_state
@@ -723,7 +776,18 @@ def diff_state(impl_state, model_state):
         for extra in ('coords_mismatch', 'unknown_datasets'):
             if a.get(extra):
                 return f'survey {n}: {extra} {a[extra]}'
-        for key in ('src', 'rec', 'frq', 'obs', 'named', 'nf', 're', 'std', 'nf_arr', 're_arr'):
+        for key in ('src', 'rec', 'frq'):
+            if a[key] != b[key]:
+                return f'survey {n}: {key} (names, in order) differ: impl {a[key]} model {b[key]}'
+        # data BY LABEL: every array as a function of (source, receiver, frequency) names
+        la, lb = by_label(a), by_label(b)
+        if la.keys() != lb.keys():
+            return f'survey {n}: arrays present differ: {sorted(la.keys() ^ lb.keys())}'
+        for arr in la:
+            if la[arr] != lb[arr]:
+                bad = [k for k in la[arr] if la[arr][k] != lb[arr].get(k, 'missing')][:1]
+                return f'survey {n}: {arr} differs by label at {bad}'
+        for key in ('obs', 'named', 'nf', 're', 'std', 'nf_arr', 're_arr'):
             if a[key] != b[key]:
                 return f'survey {n}: {key} differs'
     if sorted(ialias) != sorted(malias):
@@ -981,6 +1045,87 @@ def run_fixed(case):
     return case, impl, states, outcomes, extras
 
 
+def ordered_subsets(ids):
+    out = []
+    for k in range(1, len(ids) + 1):
+        out += [list(p) for p in itertools.permutations(ids, k)]
+    return out
+
+
+def run_label_histories(rng, thorough):
+    """Exhaustive name-order stream: on a 3 x 2 x 2 (thorough 3 x 3 x 2) survey with
+    per-source noise floor, full relative-error array and explicit std, select
+    EVERY ordered non-empty sub-list of the sources (and of the receivers),
+    plus lists with a repeated name, each followed by a second selection from
+    the new survey (composition)."""
+    runs = []
+    nr = 3 if thorough else 2
+    src_lists = ordered_subsets([1, 2, 3]) + [[1, 1], [2, 1, 2], [3, 3, 1]]
+    rec_lists = ordered_subsets(list(range(1, nr + 1))) + [[1, 1]]
+    jobs = [('sources', l) for l in src_lists] + [('receivers', l) for l in rec_lists]
+    if thorough:
+        jobs += [('both', (a, b)) for a in ordered_subsets([1, 2, 3])[3:] for b in rec_lists[nr:-1]]
+    per = 5
+    for j0 in range(0, len(jobs), per):
+        case = gen_case(rng, False, False)
+        case['shape'] = [3, nr, 2]
+        case['src_xyz'] = [[0, 0, 0], [100, 0, 0], [-200, 400, 0]]
+        case['rec_xyz'] = [[1000, 0, 0], [300, 400, 0], [2000, 0, 0]][:nr]
+        case['rec_rel'] = [False, True, False][:nr]
+        case['freqs'] = [1, 2]
+
+        def cube(p_nan, cplx=True):
+            return [[[None if rng.random() < p_nan else
+                      ([K.dy(rng) or 0.5, K.dy(rng)] if cplx else K.dy_pos(rng))
+                      for _ in range(2)] for _ in range(nr)] for _ in range(3)]
+        case['observed'] = cube(0.25)
+        if rng.random() < 0.5:
+            case['observed'][rng.randrange(3)] = [[None, None] for _ in range(nr)]
+        case['synthetic'] = cube(0.0)
+        case['ops'] = [
+            {'op': 'set_nf', 's': 0, 'val': {'arr': [[[K.dy_pos(rng)]] for _ in range(3)]},
+             'layout': 'arr-src', 'ctor': True},
+            {'op': 'set_re', 's': 0, 'val': {'arr': cube(0.0, False)}, 'layout': 'arr-full',
+             'ctor': True}]
+        impl = Impl(case)
+        states, outcomes, extras = [None, impl.dump()], [('ok',), ('ok',)], [None, None]
+
+        def do(o):
+            case['ops'].append(o)
+            out, extra = impl.apply(o)
+            outcomes.append(out)
+            extras.append(extra)
+            states.append(impl.dump())
+            return out
+        if rng.random() < 0.5:
+            do({'op': 'set_std', 's': 0, 'val': cube(0.0, False), 'layout': 'full'})
+        for ax, l in jobs[j0:j0 + per]:
+            o = {'op': 'select', 's': 0, 'sources': None, 'receivers': None, 'frequencies': None,
+                 'remove_empty': rng.random() < 0.5, 'default_rm': False, 'as_str': False,
+                 'kinds': {}}
+            if ax == 'both':
+                o['sources'], o['receivers'] = list(l[0]), list(l[1])
+            else:
+                o[ax] = list(l)
+            if rng.random() < 0.4:
+                o['frequencies'] = [2, 1]
+            for a in ('sources', 'receivers', 'frequencies'):
+                v = o[a]
+                o['kinds'][a] = ('none' if v is None else 'repeated' if len(set(v)) < len(v)
+                                 else 'ascending' if v == sorted(v)
+                                 else 'descending' if v == sorted(v, reverse=True) else 'permuted')
+            if do(o)[0] == 'ok':
+                new = impl.surveys[-1]
+                o2 = {'op': 'select', 's': len(impl.surveys) - 1, 'remove_empty': False,
+                      'default_rm': False, 'as_str': False, 'kinds': {}}
+                for a, d in (('sources', new.sources), ('receivers', new.receivers),
+                             ('frequencies', new.frequencies)):
+                    o2[a], o2['kinds'][a] = gen_name_list(rng, [impl.key_id(k) for k in d], False)
+                do(o2)
+        runs.append((case, impl, states, outcomes, extras))
+    return runs
+
+
 def correspondence(ctx):
     rng = ctx.rng
     nhist = 400 if ctx.thorough else 72
@@ -994,6 +1139,8 @@ def correspondence(ctx):
         for fn in sorted(os.listdir(corpus_dir)):
             if fn.endswith('.json'):
                 runs.append(run_fixed(json.load(open(os.path.join(corpus_dir, fn)))))
+    runs += run_label_histories(rng, ctx.thorough)
+    n_label_hist = len(runs)
     for h in range(nhist):
         malformed = (h % 6 == 5)
         nops = rng.randint(3, 9)
@@ -1008,7 +1155,7 @@ def correspondence(ctx):
     res = V.coq_eval_many(texts)
     dis, seen, nontriv = [], set(), set()
     hist = {'ops': {}, 'shapes': {}, 'layouts': {}, 'outcomes': {}, 'malformed_histories': 0,
-            'ntype': {}, 'add_noise_min_amplitude': {}}
+            'ntype': {}, 'add_noise_min_amplitude': {}, 'select_name_lists': {}}
     evaluations = 0
     for f0 in range(0, len(runs), per_file):
         rc, out = res[f"c13_h_{f0 // per_file}"]
@@ -1036,6 +1183,9 @@ def correspondence(ctx):
                     hist['layouts'][o['layout']] = hist['layouts'].get(o['layout'], 0) + 1
                 k = oc[0] if oc[0] != 'err' else 'err:' + oc[1]
                 hist['outcomes'][k] = hist['outcomes'].get(k, 0) + 1
+                if o['op'] == 'select':
+                    for ax_, kd in (o.get('kinds') or {}).items():
+                        hist['select_name_lists'][kd] = hist['select_name_lists'].get(kd, 0) + 1
                 if o['op'] == 'add_noise':
                     hist['ntype'][o['ntype']] = hist['ntype'].get(o['ntype'], 0) + 1
                     ma = 'half_nf' if o['min_amplitude'] == 'half_nf' else (
@@ -1057,7 +1207,14 @@ def correspondence(ctx):
                 "(h5, npz, json); every 6th history draws malformed arguments (non-positive values, "
                 "unbroadcastable shapes, unknown / duplicate keys). evaluations = operations whose "
                 "post-state was compared on both sides; distinct = distinct (shape, op skeleton); "
-                "non-trivial = has an array-valued noise setting and at least one non-setter op",
+                "non-trivial = has an array-valued noise setting and at least one non-setter op. "
+                "Name lists of select(): ascending / descending / permuted sub-lists, pure re-orderings, "
+                "repeated and unknown names (also in the valid stream); PLUS an exhaustive label stream: "
+                "on a 3x2x2 (thorough 3x3x2) survey with per-source noise floor, full relative-error array "
+                "and explicit std, EVERY ordered non-empty sub-list of the sources and of the receivers "
+                "(thorough: and their products) and lists with a repeated name, each followed by a second "
+                "selection from the result (composition). States are compared BY LABEL (every array as a "
+                "map from (source, receiver, frequency) names to values) and positionally",
         'samples': samples,
         'traces_validated_against_impl': len(runs),
         'histogram': hist,
@@ -1251,6 +1408,19 @@ def check_selection(impl, o, parent_data, parent_keys, parent_snap, new):
             return {'signature': 'C13: selection is not the chosen sub-cube', 'dataset': k,
                     'observed': None if got is None else np.array(got).astype(str).tolist(),
                     'required': sub.astype(str).tolist(), 'what': f'data set {k} of the selection'}
+    # by label through the xarray coordinates as well (names attached to the data)
+    pk = [[f'{pre}{i}' for i in ids] for pre, ids in zip(('TxED-', 'RxEP-', 'f-'), parent_keys)]
+    for k, arr in parent_data.items():
+        da = new.data[k]
+        for a in da.src.values.tolist():
+            for b in da.rec.values.tolist():
+                for f in da.freq.values.tolist():
+                    got = complex(da.sel(src=a, rec=b, freq=f).data)
+                    ref = complex(arr[pk[0].index(a), pk[1].index(b), pk[2].index(f)])
+                    if not (got == ref or (np.isnan(got) and np.isnan(ref))):
+                        return {'signature': 'C13: selection attaches data to the wrong names',
+                                'dataset': k, 'label': [a, b, f], 'observed': str(got),
+                                'required': str(ref), 'what': f'data set {k} looked up by name'}
     for nm in ('noise_floor', 'relative_error'):
         a, b = parent_snap[nm], getattr(new, nm)
         if isinstance(a, np.ndarray):
